@@ -486,8 +486,11 @@ fn main() {
             "setmatch" => do_setmatch(&f),
             "offset" => {
                 let src = unhex_s(f[1]);
-                let r = verif::byte_offset_of(&src, f[2].parse().unwrap(), f[3].parse().unwrap());
-                format!("{r}")
+                let (l, c): (u32, u32) = (f[2].parse().unwrap(), f[3].parse().unwrap());
+                match std::panic::catch_unwind(|| verif::byte_offset_of(&src, l, c)) {
+                    Ok(r) => format!("{r}"),
+                    Err(_) => "PANIC".into(),
+                }
             }
             "span" => do_span(&f),
             "mspan" => do_mspan(&f),
